@@ -123,6 +123,8 @@ func Load(repo, goos, goarch string, overlay map[string][]byte) (*Prog, error) {
 	if n < 25 {
 		return nil, fmt.Errorf("only %d repository packages loaded from %s (expected >= 25)", n, repo)
 	}
+	fieldRenameCache = map[*types.Named]map[string]string{}
+	indexFieldRenames(pkgs)
 	prog, _ := ssautil.AllPackages(pkgs, ssa.BuilderMode(0))
 	prog.Build()
 	p := &Prog{Fset: prog.Fset, Roots: pkgs, SSA: prog, RepoDir: repo, Config: goos + "/" + goarch,
@@ -234,7 +236,7 @@ func (p *Prog) Named(pkg, name string) *types.Named {
 	}
 	obj := tp.Scope().Lookup(name)
 	if obj == nil {
-		return nil
+		return renamedStruct(tp, name)
 	}
 	n, _ := obj.Type().(*types.Named)
 	return n
@@ -253,6 +255,16 @@ func (p *Prog) Field(pkg, typ, field string) *types.Var {
 	for i := 0; i < st.NumFields(); i++ {
 		if st.Field(i).Name() == field {
 			return st.Field(i)
+		}
+	}
+	// renamed since the pinned tree?
+	for nw, old := range fieldRenames(n) {
+		if old == field {
+			for i := 0; i < st.NumFields(); i++ {
+				if st.Field(i).Name() == nw {
+					return st.Field(i)
+				}
+			}
 		}
 	}
 	return nil
